@@ -16,6 +16,7 @@ def run_semantic(ctx, module, level, rule, flags_list, relation, origins, extra,
                  generators=()):
     core.prepare_lean(ctx, module)
     extra = list(extra)
+    n_hand = len(extra)
     if corr is not None and ctx.driver_ok:
         rng = random.Random(ctx.rng.random())
         for name, fn in corr:
@@ -40,7 +41,7 @@ def run_semantic(ctx, module, level, rule, flags_list, relation, origins, extra,
         cases += semprop.oracle_cases(ctx, flags_list, relation, (qn if ctx.quick() else tn) // len(outp_choices),
                                       (qm if ctx.quick() else tm) // len(outp_choices), origins=origins, n_inst=n_inst,
                                       facts_over=facts_over, outp=outp, extra_programs=extra, one_to_one=one_to_one,
-                                      decl_mix=decl_mix)
+                                      decl_mix=decl_mix, n_hand=n_hand)
         extra = []
     if program_filter is not None:
         cases = [c for c in cases if program_filter(c["program"])]
